@@ -3,15 +3,19 @@
    FuseDevWriter / FileVolatileSlice / FileVolatileBuf (harness/src/bin/transport) against the
    A-level semantics of Transport.tla, with interval arithmetic (runs <<addr, len>>).
 
-   Monitor mode: a failed obligation prints <<"VIOL", "C04|<op>|<what>", l, detail>> (or "C17|...")
+   Monitor mode: a failed obligation prints <<"VIOL", "C04|<op>|<what>", l, "<detail>">> (or "C17|...")
    and validation goes on.  After a C04 violation the rest of that scenario is not judged for C04
    any more (the expected remaining sequences are no longer meaningful; this keeps one defect from
    being reported under the names of later operations); container scenarios re-synchronise on the
-   logged content after every event instead.
+   logged content after every event instead.  C17 is decided at the End event (reply complete) from
+   observations only: pages of all logged byte diffs against the logged dirty bitmap, both directions;
+   the signature names the operation that first modified / first dirtied the page.
 
    Events: Reset{tr, segs[[addr,len,w]], src[size,salt], dirty0}  Op{o, op, n, x, c, res, ret, data,
    out, all[[id,avail,done]], diff[[addr,len,v]], dirty[[page,cnt]], msgs[[[v,len]]], fpos, fdiff,
-   spos, canary, new}  End{diff, dirty, msgs}.  Byte strings are ramps <<v, len>> (Transport.tla). *)
+   spos, canary, new}  End{diff, dirty, msgs}  Crash{signal, op};  containers (tr = "fvs"):
+   Op{o, op, a, n, v, res, ret, out, win, new, newwin, content, canary}.
+   Byte strings are ramps <<v, len>> (Transport.tla). *)
 EXTENDS Transport, Json, IOUtils, TLC, Integers
 
 Rec == ndJsonDeserialize(IOEnv.TRACE)
